@@ -82,7 +82,7 @@ def _pattern(ck, p):
     ck.floor(rule, "impls of Pattern::matches", len(impls), 24)
     for f in impls:
         ck.saw(f)
-        cx = Ctx(p, {"call": matches_hook})
+        cx = Ctx(p, {"call": matches_hook, "peel": 2})
         Ls = cx.fresh("len(tokens)")
         L = Lin.sym(Ls)
         cx.lens = [L]
@@ -112,7 +112,7 @@ def _consumers(ck, p):
         f = fs[0]
         ck.saw(f)
         n += 1
-        cx = Ctx(p, {"call": matches_hook})
+        cx = Ctx(p, {"call": matches_hook, "peel": 2})
         L = Lin.sym(cx.fresh("len(tokens)"))
         cx.lens = [L]
         # the token slice is parameter 2 in all four
@@ -167,7 +167,7 @@ def _lexer(ck, p):
             ck.undecided(rule, "entry:%s" % nm, f.span, "no MIR for table entry %s" % nm)
             continue
         ck.saw(g)
-        cx = Ctx(p)
+        cx = Ctx(p, {"peel": 2})
         L = Lin.sym(cx.fresh("len(source)"))
         cx.lens = [L]
         sub = analyze(cx, g, [V_slice(L)], [L])
